@@ -22,7 +22,7 @@ from .core import AnalysisError
 from . import pyfront as P
 from .wattr import clone
 
-MAXALT = 24
+MAXALT = 96
 MAXATOMS = 14
 
 
@@ -522,24 +522,29 @@ class Summary(object):
                 val = [(True, ast.Name(id=nm, ctx=ast.Load()))]
             total *= len(val)
             choices.append((nm, val))
-        if total > MAXALT:
-            # keep the widest variables opaque
-            choices.sort(key=lambda c: len(c[1]))
-            kept, total = [], 1
-            for nm, val in choices:
-                if total * len(val) <= MAXALT:
-                    kept.append((nm, val))
-                    total *= len(val)
-                else:
-                    self.notes.append('%s kept opaque (too many alternatives)' % nm)
-            choices = kept
-        out = []
-        for combo in itertools.product(*[val for nm, val in choices]):
-            g = conj(*[c[0] for c in combo])
-            if g is False:
+        # join the alternatives variable by variable, dropping contradictory combinations as they arise (the guards of
+        # locals assigned on the same branches are correlated, so the feasible combinations are few)
+        choices.sort(key=lambda c: len(c[1]))
+        combos = [(True, {})]
+        for nm, val in choices:
+            new = []
+            for g0, m0 in combos:
+                for g, v in val:
+                    gg = conj(g0, g)
+                    if gg is False or conj(pc, gg) is False:
+                        continue
+                    m1 = dict(m0)
+                    m1[nm] = v
+                    new.append((gg, m1))
+            if len(new) > MAXALT:
+                new = [(g, m_) for g, m_ in new if sat(conj(pc, g))]
+            if len(new) > MAXALT or not new:
+                self.notes.append('%s kept opaque (too many alternatives)' % nm)
                 continue
-            m = dict((nm, c[1]) for (nm, val), c in zip(choices, combo))
-            out.append((g, _replace(expr, m, bound)))
+            combos = new
+        out = []
+        for g, m_ in combos:
+            out.append((g, _replace(expr, m_, bound)))
         if len(out) > 1:
             out = [(g, n) for g, n in out if sat(conj(pc, g))] or out
         return out
@@ -1035,6 +1040,8 @@ class Summary(object):
                 c = atom('@carried:%s#%d' % (nm, self.tmp))
                 env[nm] = [(conj(g, neg(c)), v) for g, v in env[nm]] + [(c, ast.Name(id=nm, ctx=ast.Load()))]
                 carried.add(nm)
+            elif nm not in env and _read_before_write(st.body, nm):
+                carried.add(nm)      # a parameter / outer name updated in the loop (running counter): updates are recorded as 'local' effects
         self.carried.append(carried)
         self.loops.append(it_txt)
         fr.loopctl.append([])
